@@ -35,42 +35,71 @@ Theorem c02_flush_registers_waker_partial : forall (s s' : rx) (r : flush_result
   disp_waker s' = true.
 Proof. exact flush_registers_waker. Qed.
 
-(* D2, what does hold: the shutdown sets writer_shutdown (the next poll acts on it) but fires no wake *)
+(* D2 (repaired by a fix: commit in /repo): a shutdown on an idle established connection wakes the
+   dispatcher parked on the TX waker — every state *)
+Theorem c02_shutdown_wakes_ok : forall (CC : Type) (cci : cc_iface CC) (cfg : vconfig) (s : vsock CC),
+  c02_shutdown_wakes cfg (fstep_of cci s VoShutdown) = true.
+Proof. exact @shutdown_wakes_ok. Qed.
+
 Theorem c02_shutdown_sets_flag : forall (s tx1 : tx) (r : unit_result) (w : list twake),
   poll_shutdown s = (tx1, r, w) -> ring s = [] -> t_vsock_closed s = false ->
-  writer_shutdown tx1 = true /\ r = UrPending /\ w = [].
+  writer_shutdown tx1 = true /\ r = UrPending /\
+  (writer_shutdown s = false -> t_disp_waker s = true -> w = [TwDispatcher]).
 Proof. exact shutdown_sets_flag. Qed.
 
-(* ---- refutations (each reproduced on the real code, see known findings) ---- *)
-(* D2: c02_shutdown_idle_prompt, first half (the shutdown wakes the parked dispatcher) is false;
-   second half (the next poll emits ST_FIN) holds on the witness *)
-Theorem c02_shutdown_idle_wakes_nobody_refuted :
+(* the witness of the old defect D2 as a regression example: the guard is met, the dispatcher is
+   woken, the next poll emits ST_FIN *)
+Theorem c02_shutdown_idle_regression :
   exists w cfg ops,
     vconfig_ok cfg = true /\
-    forallb (c02_shutdown_wakes cfg) (wtrace w cfg ops) = false /\
-    existsb (c02_d2_class cfg) (wtrace w cfg ops) = true /\
+    existsb shutdown_idle_guard (wtrace w cfg ops) = true /\
+    forallb (c02_shutdown_wakes cfg) (wtrace w cfg ops) = true /\
+    existsb (c02_d2_class cfg) (wtrace w cfg ops) = false /\
     c02_prompt cfg (wtrace w cfg ops) = true /\
     match rev (wtrace w cfg ops) with
     | st :: _ => emits (fs_result st) (fun p => match ch_type (fq_hdr p) with ST_FIN => true | _ => false end)
     | [] => false
     end = true.
-Proof. exact shutdown_idle_wakes_nobody_refuted. Qed.
+Proof. exact shutdown_idle_regression. Qed.
 
-(* D8 *)
-Theorem c02_eof_flush_wakes_nobody_refuted :
+(* ---- refutations (each reproduced on the real code, see known findings) ---- *)
+(* D8 (repaired by a fix: commit in /repo): a flush that hands at least one item — bytes or the EOF
+   marker alone — to the user queue fires the parked reader's waker; regression examples at both tiers *)
+Theorem c02_rx_flush_wakes_reader : forall (s s' : rx) (fb : Z) (w : list Rx.wake),
+  rx_flush s = (s', FlOk fb, w) -> reader_waker s = true ->
+  (length (q s) < length (q s'))%nat ->
+  w = [WakeReader] /\ reader_waker s' = false.
+Proof. exact rx_flush_wakes_reader. Qed.
+
+Theorem c02_eof_flush_regression :
   exists w cfg ops,
     vconfig_ok cfg = true /\ Forall op_msg_ok ops /\
-    forallb (c02_eof_wakes cfg) (wtrace w cfg ops) = false /\
-    existsb (c02_d8_class cfg) (wtrace w cfg ops) = true /\
+    existsb eof_flush_guard (wtrace w cfg ops) = true /\
+    forallb (c02_eof_wakes cfg) (wtrace w cfg ops) = true /\
+    existsb (c02_d8_class cfg) (wtrace w cfg ops) = false /\
     match rev (wtrace w cfg ops) with st :: _ => fs_result st = FrReadEof | [] => False end.
-Proof. exact eof_flush_wakes_nobody_refuted. Qed.
+Proof. exact eof_flush_regression. Qed.
 
-Theorem c02_rx_eof_flush_wakes_nobody_refuted :
+Theorem c02_rx_eof_flush_regression :
   exists s,
     rx_inv s /\ reader_waker s = true /\ q s = [] /\
     let '(s', r, w) := rx_flush s in
-    r = FlOk 0 /\ w = [] /\ q s' = [QEof] /\ reader_waker s' = true.
-Proof. exact rx_eof_flush_wakes_nobody_refuted. Qed.
+    r = FlOk 0 /\ w = [WakeReader] /\ q s' = [QEof] /\ reader_waker s' = false.
+Proof. exact rx_eof_flush_regression. Qed.
+
+(* D14 (repaired by a fix: commit in /repo): the witness of the old defect as a regression example —
+   the poll that pops the expired MTU probe leaves the retransmission timer armed *)
+Theorem c02_probe_expiry_rto_regression :
+  exists w cfg ops,
+    vconfig_ok cfg = true /\ Forall op_msg_ok ops /\
+    existsb probe_popped_outstanding (wtrace w cfg ops) = true /\
+    forallb (c02_rto_armed cfg) (wtrace w cfg ops) = true /\
+    existsb (c02_d14_class cfg) (wtrace w cfg ops) = false /\
+    match rev (wtrace w cfg ops) with
+    | st :: _ => f_t_retransmit (fs_post st) = Some (fs_now st + f_rto (fs_post st))
+    | [] => False
+    end.
+Proof. exact probe_expiry_rto_regression. Qed.
 
 (* D9 *)
 Theorem c02_zero_window_without_waker_refuted :
@@ -88,7 +117,10 @@ Print Assumptions c02_read_wakes_ok.
 Print Assumptions c02_ftrace_steps.
 Print Assumptions c02_flush_registers_waker_partial.
 Print Assumptions c02_shutdown_sets_flag.
-Print Assumptions c02_shutdown_idle_wakes_nobody_refuted.
-Print Assumptions c02_eof_flush_wakes_nobody_refuted.
-Print Assumptions c02_rx_eof_flush_wakes_nobody_refuted.
+Print Assumptions c02_shutdown_wakes_ok.
+Print Assumptions c02_shutdown_idle_regression.
+Print Assumptions c02_rx_flush_wakes_reader.
+Print Assumptions c02_eof_flush_regression.
+Print Assumptions c02_rx_eof_flush_regression.
+Print Assumptions c02_probe_expiry_rto_regression.
 Print Assumptions c02_zero_window_without_waker_refuted.
